@@ -525,6 +525,16 @@ func (c *cases) genExchangeFixed() {
 		c.r.Case(trace(a), true)
 		c.r.Count("gen.exchange." + sh.name)
 	}
+	// the server's write fails at every kind of boundary; the next exchange equalises
+	for _, f := range []fault{{"begin", 0}, {"find", 0}, {"find", 1}, {"upsert", 0}, {"upsert", 1}, {"head", 0}, {"commit", 0}} {
+		a, b := c.newSut(c.dev("o", 1)), c.newSut(c.dev("w", 1))
+		c.raw(a, "raw", fault{}, []*rawValue{a3, b1, cshared})
+		c.raw(b, "raw", fault{}, []*rawValue{a1, b2})
+		c.exchangeF(a, b, f)
+		c.exchange(a, b)
+		c.r.Case(trace(a), true)
+		c.r.Count("gen.exchange.serverfault")
+	}
 }
 
 // pulls / pushes larger than one apply batch (applyBatchSize = 100): 100, 101, 230 values
@@ -585,7 +595,14 @@ func (c *cases) genExchangeRandom() {
 			c.set(a, fault{}, slots[0].key)
 		}
 	}
-	c.exchange(a, b)
+	if !big && c.r.Chance(25) {
+		// the server's write of what we push fails; a later fault-free exchange repairs it
+		c.exchangeF(a, b, c.randomFault(4))
+		c.exchange(a, b)
+		c.r.Count("gen.exchange.serverfault")
+	} else {
+		c.exchange(a, b)
+	}
 	if c.r.Chance(50) {
 		c.exchange(b, a)
 	}
